@@ -8,10 +8,12 @@ SLOTS="${1:-3}"
 eval "$(tools/ns_snapshot.sh)"
 ls -d seeded/_benign/*/ | sed 's#/$##' > /root/benign.list
 rm -f /root/benign.out.*
+# slot numbers: 10, 11, ... unless BENIGN_SLOTLIST names them
+slot_of() { k=$1; if [ -n "${BENIGN_SLOTLIST:-}" ]; then set -- $BENIGN_SLOTLIST; shift $k; echo $1; else echo $((10 + k)); fi; }
 i=0
 while [ $i -lt "$SLOTS" ]; do
     ( n=0; while read d; do
-        if [ $((n % SLOTS)) -eq $i ]; then P="$d/patch.diff"; [ -f "$d/patch.rebased.diff" ] && P="$d/patch.rebased.diff"; tools/ns_all.sh $((10 + i)) "$P" $BENIGN_IDS; fi
+        if [ $((n % SLOTS)) -eq $i ]; then P="$d/patch.diff"; [ -f "$d/patch.rebased.diff" ] && P="$d/patch.rebased.diff"; tools/ns_all.sh $(slot_of $i) "$P" $BENIGN_IDS; fi
         n=$((n+1))
       done < /root/benign.list ) > /root/benign.out.$i 2>&1 &
     i=$((i+1))
